@@ -38,7 +38,7 @@ var shortOf = func() map[string]string {
 }()
 
 // PushOrder, then the types whose order is Go map order (responses and calls are printed in this order)
-var wireRank = map[string]int{"CDS": 0, "EDS": 1, "LDS": 2, "RDS": 3, "SDS": 4, "WDS": 5, "WL": 6, "WAUTH": 7, "ECDS": 8, "NDS": 9}
+var wireRank = map[string]int{"T": 0, "CDS": 0, "EDS": 1, "LDS": 2, "RDS": 3, "SDS": 4, "WDS": 5, "WL": 6, "WAUTH": 7, "ECDS": 8, "NDS": 9}
 
 type pres struct {
 	name string
@@ -130,6 +130,9 @@ type procSys struct {
 	nonces    []string
 	needsPush bool
 	grpc      bool
+	// stream tproc: the one type URL of the case, printed as `T` (any type-URL constant of the tree)
+	only  string
+	tproc bool
 }
 
 type recGen struct {
@@ -370,7 +373,11 @@ func showResps(ws []presp) string {
 
 func (p *procSys) showState() string {
 	var parts []string
-	for _, t := range typeOrder {
+	order := typeOrder
+	if p.tproc {
+		order = []string{"T"}
+	}
+	for _, t := range order {
 		w := p.proxy.WatchedResources[typeURL[t]]
 		if w == nil {
 			continue
@@ -405,6 +412,21 @@ func (pr *procRunner) apply(f []string) (out string) {
 		}
 	}()
 	if f[0] == "case" {
+		// the alias T of a previous tproc case is dropped
+		delete(shortOf, typeURL["T"])
+		delete(typeURL, "T")
+		for k, v := range typeURL {
+			shortOf[v] = k
+		}
+		if f[2] == "tproc" {
+			// case <n> tproc <sotw|delta> <constant> <url>: the type of the case is ANY type-URL constant, called T
+			url := wire.Dec(f[5])
+			typeURL["T"], shortOf[url] = url, "T"
+			pr.p = newProcSys(f[3] == "delta", false)
+			pr.p.only, pr.p.tproc = url, true
+			pr.p.gens[url] = recGen{"T", pr.p}
+			return "ok"
+		}
 		pr.p = newProcSys(f[2] == "dproc", len(f) > 3 && f[3] == "grpc")
 		return "ok"
 	}
@@ -762,9 +784,28 @@ func errMsgOf(tok string) *string {
 	return &m
 }
 
+// debugT: the type of the request is a debug type (strings.HasPrefix(url, DebugType)): never classified, never
+// watched; the generator is handed the request's names and its answer is sent without recording a nonce.
+func debugT(t string) bool { return strings.HasPrefix(typeURL[t], "istio.io/debug") }
+
+func (o *procOracle) debugReq(f []string, names []string, line string) {
+	if o.pr.apply(f) == "crash" {
+		o.fail("never-crashes", line)
+		return
+	}
+	o.checkAnswer("debug-request-answered-without-a-watch", []pcall{{short: f[1], names: names, forced: true}}, line)
+	if w := o.pr.p.proxy.WatchedResources[typeURL[f[1]]]; w != nil {
+		o.fail("debug-request-created-a-watch", line)
+	}
+}
+
 func (o *procOracle) sotwReq(f []string, line string) {
 	t := f[1]
 	names := wire.DecList(f[2])
+	if debugT(t) {
+		o.debugReq(f, names, line)
+		return
+	}
 	nonce := o.pr.p.resolve(t, f[3]) // what the client sends: resolved from the client's own view, before the op
 	e := o.expectSotw(t, names, nonce, errMsgOf(f[4]))
 	if o.pr.apply(f) == "crash" {
@@ -808,6 +849,9 @@ func (o *procOracle) pushAll(f []string, line string) {
 	}
 	p := o.pr.p
 	order := []string{"CDS", "EDS", "LDS", "RDS", "SDS", "WDS", "WL", "WAUTH", "ECDS", "NDS"}
+	if p.tproc {
+		order = []string{"T"}
+	}
 	var want []pcall
 	if !p.needsPush {
 		// the proxy does not need the push: nothing is generated, nothing is sent
@@ -828,6 +872,10 @@ func (o *procOracle) pushAll(f []string, line string) {
 
 func (o *procOracle) deltaReq(f []string, line string) {
 	t := f[1]
+	if debugT(t) {
+		o.debugReq(f, wire.DecList(f[2]), line)
+		return
+	}
 	nonce := o.pr.p.resolve(t, f[5])
 	e := o.expectDelta(t, wire.DecList(f[2]), wire.DecList(f[3]), wire.DecList(f[4]), nonce, errMsgOf(f[6]))
 	if o.pr.apply(f) == "crash" {
